@@ -33,6 +33,14 @@ IMMUTABLE_CTORS = {"types.MappingProxyType", "re.compile", "builtins.frozenset",
                    "decimal.Decimal", "fractions.Fraction", "string.Template", "struct.Struct", "operator.itemgetter", "operator.attrgetter"}
 
 
+LOG_EMITTERS = ("debug", "info", "warning", "warn", "error", "exception", "critical", "fatal", "log")
+LOG_QUERIES = ("isEnabledFor", "getEffectiveLevel", "getChild", "hasHandlers")
+
+
+def is_logger(t):
+    return z3.is_expr(t) and z3.is_app(t) and t.decl().name() == "logging.getLogger"
+
+
 def acc_fn(sort):
     return z3.Function("ACC_%s" % sort, z3.ArraySort(I, sort), z3.ArraySort(I, sort))
 
@@ -355,8 +363,34 @@ def install_externals(reg):
         return res
     E["builtins.exec"] = b_exec
 
+    # ------------------------------------------------------------------ logging (assumed contract)
+    # A-log: logging.getLogger returns the process-wide logger of that name and does not raise; the emitting methods
+    # (debug/info/warning/error/exception/critical/log and the module-level functions of the same names) return None, do not
+    # raise into the caller (errors inside handlers go to logging's handleError) and do not change anything the program
+    # reads; the level queries are deterministic functions of the logger.  Their ARGUMENTS are still evaluated by the
+    # executor, so an eagerly formatted message ("%s" % item) keeps its own obligations.
+    def log_get(ex, p, pos, kw, node):
+        ex.reg.trusted.add("logging: assumed contract A-log (emitting never raises into the caller and has no effect the program reads)")
+        return [(p, uf("logging.getLogger", *pos))]
+    E["logging.getLogger"] = log_get
+
+    def log_emit(ex, p, pos, kw, node):
+        ex.reg.trusted.add("logging: assumed contract A-log (emitting never raises into the caller and has no effect the program reads)")
+        p.ghost.setdefault("log_calls", []).append(node.lineno)
+        return [(p, NONE)]
+    for _m in LOG_EMITTERS:
+        E["logging." + _m] = log_emit
+
     def opaque_call(ex, p, pos, kw, node):
         f = pos[0]
+        if z3.is_expr(f) and z3.is_app(f) and f.decl().name().startswith("attr:") and f.num_args() == 1 and is_logger(f.arg(0)):
+            meth = f.decl().name()[5:]
+            ex.reg.trusted.add("logging: assumed contract A-log (emitting never raises into the caller and has no effect the program reads)")
+            if meth in LOG_EMITTERS:
+                p.ghost.setdefault("log_calls", []).append(node.lineno)
+                return [(p, NONE)]
+            if meth in LOG_QUERIES:
+                return [(p, uf("logging.Logger." + meth, f.arg(0), *pos[1:]))]
         args = [to_val(a) for a in pos[1:]]
         kws = kw.get("**")
         if [k for k in kw if k != "**"]:
@@ -396,7 +430,7 @@ def install_externals(reg):
     def havoc_of(name, sort=Val):
         def h(ex, p, pos, kw, node):
             v = fresh("havoc_" + name.replace(".", "_"), sort)
-            p.havoc.append((name, node.lineno))
+            p.havoc.append((name, node.lineno, v))
             return [(p, v)]
         return h
     for nm, srt in (("builtins.hash", I), ("builtins.id", I), ("time.time", R), ("time.time_ns", I), ("random.random", R),
